@@ -9,8 +9,9 @@ import SafeC.Proofs.SortGap64
 # C16 — "qsort_s sorts and bsearch_s finds, for every array and comparator"
 
 Models: `SafeC/Models/Sort.lean` (`qsortChk` = `_qsort_s_chk` + musl smoothsort at element-index level,
-`bsearchChk` = `_bsearch_s_chk`).  `fx : Fixes` selects the code of the tree (`unrepaired`) or the code
-repaired by `fixes/qsort_s-*.diff`; theorems quantified over `fx` hold for both.
+`bsearchChk` = `_bsearch_s_chk`).  `fx : Fixes` has one switch per repair in `fixes/qsort_*.diff` (`ctz64`: whole-word `ntz`,
+`ovf`: unwrapped `nmemb*size` check, `pntzGap`: `pntz` tests `p[1] != 0` itself); `unrepaired` = none, `ntzOvfFixed` = the
+first two, `allFixed` = all three.  Theorems quantified over `fx` hold for all eight combinations.
 
 All statements quantify over EVERY array (any length), every element type, and — unless a hypothesis says
 otherwise — EVERY comparator, including comparators whose answer depends on the call number and on the
@@ -66,15 +67,68 @@ The model has no fuel: its loops recurse on the free entries of `ar[]`, on `high
 returns `.ok` is a run in which the C terminates, never indexes outside `[0, nmemb)`, never forms a pointer below
 `base`, and overruns neither `lp[]` nor `ar[]`.
 
-FULL statement — FALSE of the model (and of the C) beyond 55 555 780 070 575 elements, see `qsort_safe_witness`:
-
-  theorem qsort_safe (fx) (hfx : fx.ctz64 = true) (c : Cmp α) (g : Args) (s : St α) (hn : g.nmemb = s.a.size)
-      (h63 : g.nmemb * g.size ≤ 2 ^ 63) (h3 : 3 * g.size < 2 ^ 64) : ∃ o, qsortChk fx c g s = .ok o
-
+`qsort_safe` is the FULL statement (no bound on `nmemb`) for the code with the whole-word `ntz` and the repaired `pntz`.
+For the code without the `pntz` repair it is FALSE beyond 55 555 780 070 575 elements (`qsort_safe_witness`,
+`qsort_safe_overrun_witness`), hence `qsort_safe_partial`.
 -/
 
-/-- (3) `_qsort_s_chk` on an array of exactly `nmemb` elements, EVERY comparator (inconsistent ones included), both codes:
-    the call returns (terminates; every element index `< nmemb`; no pointer below `base`; `lp[]`, `ar[]` within capacity)
+/-- (3, FULL) `_qsort_s_chk` with the whole-word `ntz` and the repaired `pntz` (`fixes/qsort_s-pntz-gap-64.diff`), on an array
+    of exactly `nmemb` elements — ANY `nmemb` —, EVERY comparator (inconsistent ones included), object size known or not:
+    the call returns (terminates; every element index `< nmemb`; no pointer below `base`; `lp[]`, `ar[]` within capacity) and
+    keeps the element count.  The two remaining hypotheses are about `size_t` arithmetic of the table loop
+    `for (…; (lp[i] = lp[i-2] + lp[i-1] + width) < size; i++)`, which adds BEFORE it compares:
+    * `nmemb*size ≤ 2^63`: the last entry computed is the first scaled Leonardo number `≥ nmemb*size`; it is below
+      `2*nmemb*size`, so it fits `size_t`.  Dropping it is false, also of the C: `qsort_safe_product_witness` (the entry wraps,
+      compares below `size`, and the loop goes on past the values the sort relies on; needs an object of 1.5·10^19 bytes).
+      Every real object has at most `PTRDIFF_MAX < 2^63` bytes.
+    * `3*size < 2^64`: the first computed entry is `3*width`.  Only a one-element array can violate it under the first
+      hypothesis; the model flags the wrapped entry (`qsort_safe_size_witness`) although the C never uses the table then. -/
+theorem qsort_safe (fx : Fixes) (hfx : fx.ctz64 = true) (hgap : fx.pntzGap = true) (c : Cmp α) (g : Args) (s : St α)
+    (hn : g.nmemb = s.a.size) (h63 : g.nmemb * g.size ≤ 2 ^ 63) (h3 : 3 * g.size < 2 ^ 64) :
+    ∃ o, qsortChk fx c g s = .ok o ∧ o.st.a.size = s.a.size := by
+  rcases qsortChk_cases fx c g s with ⟨code, _, h⟩ | h
+  · exact ⟨_, h, rfl⟩
+  · obtain ⟨r, hr, hsz⟩ := qsortMusl_safe fx hfx hgap c s g.nmemb g.size hn h63 h3
+    exact ⟨⟨EOK, none, [], r⟩, by rw [h, hr]; rfl, hsz⟩
+
+/-- non-vacuity: 6 elements of 4 bytes, all three repairs -/
+example : allFixed.ctz64 = true ∧ allFixed.pntzGap = true ∧ (6 : Nat) = (#[5, 3, 9, 1, 2, 8] : Array Nat).size ∧ 6 * 4 ≤ 2 ^ 63 ∧
+    3 * 4 < 2 ^ 64 := by decide
+
+/-- witness for `nmemb*size ≤ 2^63` in `qsort_safe` (all repairs, size 1, object of `2^64 - 1` bytes, product representable in
+    `size_t`): with `nmemb = leo 91 + 1` = 15 080 227 609 492 692 858 the table loop computes `lp[92] = leo 92`, which does not
+    fit `size_t`; the call does not return `.ok` whatever the array — in the C the wrapped entry is `< size`, the loop goes on
+    and the table no longer holds Leonardo numbers.  (No such object exists on a 64-bit machine.) -/
+theorem qsort_safe_product_witness (c : Cmp α) (s : St α) :
+    qsortChk allFixed c ⟨false, false, false, 15080227609492692858, 1, some (2 ^ 64 - 1)⟩ s = .error .wrap ∧
+    15080227609492692858 * 1 < 2 ^ 64 ∧ 3 * 1 < 2 ^ 64 ∧ ¬ (15080227609492692858 * 1 ≤ 2 ^ 63) := by
+  refine ⟨?_, by decide, by decide, by decide⟩
+  have hmk : mkLp 1 15080227609492692858 = .error .wrap := eq_wrap_of_match _ (by decide +kernel)
+  unfold qsortChk qsortMusl
+  simp only [allFixed, if_true]
+  rw [if_neg (by decide)]
+  simp only [show (1 * 15080227609492692858) % 2 ^ 64 = 15080227609492692858 by decide]
+  rw [if_neg (by decide), hmk]
+  rfl
+
+/-- witness for `3*size < 2^64` in `qsort_safe`: one element of `2^63` bytes (object size known, all repairs): the model flags
+    `lp[2] = 3*width` as not representable (`Fault.wrap`).  Of the MODEL only: the C computes the wrapped value too but never
+    reads the table when `nmemb = 1`. -/
+theorem qsort_safe_size_witness :
+    qsortChk allFixed natCmp ⟨false, false, false, 1, 2 ^ 63, some (2 ^ 63)⟩ ⟨#[0], [], 0⟩ = .error .wrap ∧
+    1 * 2 ^ 63 ≤ 2 ^ 63 ∧ ¬ (3 * 2 ^ 63 < 2 ^ 64) := by
+  refine ⟨eq_wrap_of_match _ (by decide +kernel), by decide, by decide⟩
+
+/-- witness for `nmemb = a.size` in `qsort_safe` (the caller's obligation: the array really has `nmemb` elements; with an
+    unknown object size nothing can check it): `nmemb = 4` on a 3-element array reads element 3 (`Fault.idx 3`; in the harness
+    the guard page) -/
+theorem qsort_safe_nmemb_witness :
+    (match qsortChk allFixed natCmp (okArgs 4 4) ⟨#[3, 2, 1], [], 0⟩ with
+     | .error (.idx i) => i == 3
+     | _ => false) = true := by decide +kernel
+
+/-- (3, code WITHOUT the `pntz` repair — the statement holds for every `fx`) `_qsort_s_chk` on an array of exactly `nmemb`
+    elements, EVERY comparator (inconsistent ones included), either `ntz`: the call returns (terminates; every element index `< nmemb`; no pointer below `base`; `lp[]`, `ar[]` within capacity)
     and keeps the element count.  Hypotheses the proof forces: the byte size fits 63 bits and `3*size` fits 64 bits (the
     table loop computes `lp[i-2] + lp[i-1] + width` before comparing it with `nmemb*size`), and `nmemb ≤ safeBound fx`
     = `leo 65` = 55 555 780 070 575 for the repaired `ntz`, `leo 34` = 18 454 929 for the `int` builtin (up to there
@@ -84,7 +138,7 @@ theorem qsort_safe_partial (fx : Fixes) (c : Cmp α) (g : Args) (s : St α) (hn 
     ∃ o, qsortChk fx c g s = .ok o ∧ o.st.a.size = s.a.size := by
   have hrun : ∃ o, (do let s' ← qsortMusl fx c s g.nmemb g.size; pure (⟨EOK, none, [], s'⟩ : Out α Nat)) = .ok o ∧
       o.st.a.size = s.a.size := by
-    obtain ⟨r, hr, hsz⟩ := qsortMusl_safe fx c s g.nmemb g.size hn h63 h3 hb
+    obtain ⟨r, hr, hsz⟩ := qsortMusl_safe_partial fx c s g.nmemb g.size hn h63 h3 hb
     exact ⟨⟨EOK, none, [], r⟩, by rw [hr]; rfl, hsz⟩
   unfold qsortChk
   split
@@ -102,7 +156,7 @@ theorem qsort_safe_partial (fx : Fixes) (c : Cmp α) (g : Args) (s : St α) (hn 
         · exact hrun
 
 /-- non-vacuity: 6 elements of 4 bytes -/
-example : (6 : Nat) = (#[5, 3, 9, 1, 2, 8] : Array Nat).size ∧ 6 * 4 ≤ 2 ^ 63 ∧ 3 * 4 < 2 ^ 64 ∧ 6 ≤ safeBound allFixed ∧
+example : (6 : Nat) = (#[5, 3, 9, 1, 2, 8] : Array Nat).size ∧ 6 * 4 ≤ 2 ^ 63 ∧ 3 * 4 < 2 ^ 64 ∧ 6 ≤ safeBound ntzOvfFixed ∧
     6 ≤ safeBound unrepaired := by decide
 
 /-- (3, FULL for the branch without a known object size) repaired `ntz`, `basebos == BOS_UNKNOWN`: the function's own
@@ -124,15 +178,18 @@ theorem qsort_safe_bos_unknown (fx : Fixes) (hfx : fx.ctz64 = true) (c : Cmp α)
 
 example : (okArgs 6 4).bos = none := rfl
 
-/-- witness for the bound of `qsort_safe_partial` (repaired code, and musl upstream): `{1, 1}` with `pshift = 1` is the bit
+/-- witness for the bound of `qsort_safe_partial` (whole-word `ntz`, `pntz` not repaired — the tree before
+    `fixes/qsort_s-pntz-gap-64.diff`, and musl upstream): `{1, 1}` with `pshift = 1` is the bit
     vector of a heap whose two trees have orders 1 and 65, first reached with `leo 65 + 1` = 55 555 780 070 576
     elements; `pntz` answers 0 instead of 64 (`r = 64 + ntz(p[1])` is 64 and taken for "no bit set"), so `trinkle` shifts by 0 and keeps
     walking `head - lp[1]` with the same `p`: it never reaches `p == {1,0}` and stops only when the comparator says so — `ar[]` (113
     entries) is overrun after 112 steps with a comparator that keeps answering "greater" (e.g. a consistent one, new element
     smaller than the 112 elements below it).  No run of that size can be replayed; the statement here is about `pntz` and the
-    encoding only. -/
-theorem qsort_safe_witness : pntz allFixed ⟨1, 1⟩ = 0 ∧ Rep ⟨1, 1⟩ 1 [1, 65] ∧ leo 65 + 1 = 55555780070576 := by
-  refine ⟨by decide +kernel, ?_, by rw [leo_65]⟩
+    encoding only (the check replays `pntz` itself on `{1,1}` on the compiled C: harness/hpntz.c).  The repaired `pntz`
+    answers 64. -/
+theorem qsort_safe_witness : pntz ntzOvfFixed ⟨1, 1⟩ = 0 ∧ Rep ⟨1, 1⟩ 1 [1, 65] ∧ leo 65 + 1 = 55555780070576 ∧
+    pntz allFixed ⟨1, 1⟩ = 64 := by
+  refine ⟨by decide +kernel, ?_, by rw [leo_65], by decide +kernel⟩
   intro i
   unfold PV.bit
   by_cases h : i < 64
@@ -176,15 +233,18 @@ theorem pntz_witness : pntz unrepaired ⟨2 ^ 33 + 1, 0⟩ = 32 ∧ pntz allFixe
   refine ⟨by decide +kernel, by decide +kernel, by decide +kernel⟩
 
 /-- second half of the witness, on the model's `trinkle` itself: in the state `p = {1,1}`, `pshift = 1` (the forest of orders 1 and
-    65 of `qsort_safe_witness`), repaired `ntz`, any array with at least 114 elements below `head`, a comparator that answers
-    "greater" every time: `trinkle` does not return, it runs over the 113 entries of `ar[]` (`Fault.arIdx`) -/
-theorem qsort_safe_overrun_witness (e : Env α) (hfx : e.fx.ctz64 = true) (hcmp : ∀ k i j x y, e.cmp k i j x y = 1)
+    65 of `qsort_safe_witness`), repaired `ntz`, `pntz` NOT repaired, any array with at least 114 elements below `head`, a
+    comparator that answers "greater" every time: `trinkle` does not return, it runs over the 113 entries of `ar[]`
+    (`Fault.arIdx`) -/
+theorem qsort_safe_overrun_witness (e : Env α) (hfx : e.fx.ctz64 = true) (hgap : e.fx.pntzGap = false)
+    (hcmp : ∀ k i j x y, e.cmp k i j x y = 1)
     (hlp1 : e.lp[1]? = some 1) (s : St α) (head : Nat) (hh : head < s.a.size) (h113 : 113 ≤ head) :
-    trinkle e s head ⟨1, 1⟩ 1 false = .error .arIdx := trinkle_gap64_overrun e hfx hcmp hlp1 s head hh h113
+    trinkle e s head ⟨1, 1⟩ 1 false = .error .arIdx := trinkle_gap64_overrun e hfx hgap hcmp hlp1 s head hh h113
 
-/-- non-vacuity: 200 elements, head = 150 -/
-example : (150 : Nat) < (Array.replicate 200 (0 : Nat)).size ∧ 113 ≤ 150 ∧ (#[1, 1, 3] : Array Nat)[1]? = some 1 := by
-  refine ⟨by simp, by decide, by decide⟩
+/-- non-vacuity: 200 elements, head = 150, the switches of the tree before the `pntz` repair -/
+example : (150 : Nat) < (Array.replicate 200 (0 : Nat)).size ∧ 113 ≤ 150 ∧ (#[1, 1, 3] : Array Nat)[1]? = some 1 ∧
+    ntzOvfFixed.ctz64 = true ∧ ntzOvfFixed.pntzGap = false := by
+  refine ⟨by simp, by decide, by decide, rfl, rfl⟩
 
 /-! ## (5) qsort_s sorts — comparator a total preorder
 
@@ -194,11 +254,33 @@ order and root position, and a final tree has only final trees to its left, `fin
 everything right of `head` in its final place (`Dom`).  `sift_spec`: `sift` restores the heap order of one tree given both
 subtrees are heaps; `trinkle_spec`: `trinkle` restores heap order and ascending roots of the whole forest. -/
 
-/-- (5) `_qsort_s_chk` returns EOK on an array of exactly `nmemb` elements of `size > 0` bytes, with a comparator that
-    is a total preorder — its sign depends on the two elements only (`f`), is antisymmetric (`0 ≤ f x y ↔ f y x ≤ 0`, which
-    gives totality and reflexivity) and transitive: the result is ordered, `f a[j] a[i] ≤ 0` for all `j ≤ i`.  Same side
-    conditions as `qsort_safe_partial` (see there and `qsort_safe_witness` for why the element count is bounded); together with
-    `qsort_perm` this is "sorted permutation of the input". -/
+/-- (5, FULL) `_qsort_s_chk` with the whole-word `ntz` and the repaired `pntz` returns EOK on an array of exactly `nmemb`
+    elements — ANY `nmemb` — of `size > 0` bytes, with a comparator that is a total preorder — its sign depends on the two
+    elements only (`f`), is antisymmetric (`0 ≤ f x y ↔ f y x ≤ 0`, which gives totality and reflexivity) and transitive: the
+    result is ordered, `f a[j] a[i] ≤ 0` for all `j ≤ i`.  Arithmetic side conditions as in `qsort_safe` (see there for why
+    each is needed and for the witnesses); `size > 0` because a zero-size call returns EOK without sorting (as documented).
+    Together with `qsort_perm` this is "sorted permutation of the input". -/
+theorem qsort_sorted (fx : Fixes) (hfx : fx.ctz64 = true) (hgap : fx.pntzGap = true) (c : Cmp α) (f : α → α → Int)
+    (hcmp : ∀ k i j x y, c.cmp k i j x y = f x y)
+    (hanti : ∀ x y, 0 ≤ f x y ↔ f y x ≤ 0) (htrans : ∀ x y z, f x y ≤ 0 → f y z ≤ 0 → f x z ≤ 0)
+    (g : Args) (s : St α) (hn : g.nmemb = s.a.size) (hsz : 0 < g.size) (h63 : g.nmemb * g.size ≤ 2 ^ 63)
+    (h3 : 3 * g.size < 2 ^ 64) (o : Out α Nat) (h : qsortChk fx c g s = .ok o) (hok : o.ret = EOK) :
+    ∀ (i j : Nat) (hi : i < o.st.a.size) (hij : j ≤ i), f (o.st.a[j]'(by omega)) o.st.a[i] ≤ 0 := by
+  intro i j hi hij
+  have hsize : o.st.a.size = s.a.size := qsort_size fx c g s o h
+  have h0 : 0 < s.a.size := by omega
+  haveI : Inhabited α := ⟨s.a[0]⟩
+  exact sorted_of_musl fx c f g s
+    (qsortMusl_sorted fx hfx hgap c (consistent_of c f hcmp hanti htrans) s g.nmemb g.size hn hsz h63 h3) hn o h hok i j hi hij
+
+/-- witness for `size > 0` in `qsort_sorted`: `size = 0` returns EOK and leaves the array alone -/
+theorem qsort_sorted_size0_witness :
+    (match qsortChk allFixed natCmp (okArgs 3 0) ⟨#[3, 2, 1], [], 0⟩ with
+     | .ok o => o.ret == EOK && o.st.a.toList == [3, 2, 1]
+     | .error _ => false) = true := by decide +kernel
+
+/-- (5, code WITHOUT the `pntz` repair — the statement holds for every `fx`) the same with `nmemb ≤ safeBound fx` (see
+    `qsort_safe_partial` and `qsort_safe_witness` for why the element count is bounded there) -/
 theorem qsort_sorted_partial (fx : Fixes) (c : Cmp α) (f : α → α → Int) (hcmp : ∀ k i j x y, c.cmp k i j x y = f x y)
     (hanti : ∀ x y, 0 ≤ f x y ↔ f y x ≤ 0) (htrans : ∀ x y z, f x y ≤ 0 → f y z ≤ 0 → f x z ≤ 0)
     (g : Args) (s : St α) (hn : g.nmemb = s.a.size) (hsz : 0 < g.size) (h63 : g.nmemb * g.size ≤ 2 ^ 63)
@@ -209,39 +291,8 @@ theorem qsort_sorted_partial (fx : Fixes) (c : Cmp α) (f : α → α → Int) (
   have hsize : o.st.a.size = s.a.size := qsort_size fx c g s o h
   have h0 : 0 < s.a.size := by omega
   haveI : Inhabited α := ⟨s.a[0]⟩
-  have hc : Consistent c.cmp (fun x y => f x y ≤ 0) := by
-    refine ⟨fun x y => ?_, fun {x y z} => htrans x y z, fun k i j x y => by rw [hcmp]; exact hanti x y,
-      fun k i j x y => by rw [hcmp]⟩
-    by_cases hxy : f x y ≤ 0
-    · exact Or.inl hxy
-    · exact Or.inr ((hanti x y).mp (by omega))
-  obtain ⟨r, hr, _, hsorted⟩ := qsortMusl_sorted fx c hc s g.nmemb g.size hn hsz h63 h3 hb
-  have hrun : ∀ o', (do let s' ← qsortMusl fx c s g.nmemb g.size; pure (⟨EOK, none, [], s'⟩ : Out α Nat)) = .ok o' →
-      o'.st = r := by
-    intro o' ho'
-    rw [hr] at ho'
-    cases ho'
-    rfl
-  have hst : o.st = r := by
-    unfold qsortChk at h
-    split at h
-    · cases h; exact absurd hok (by dsimp only; decide)
-    · split at h
-      · split at h
-        · cases h; exact absurd hok (by dsimp only; decide)
-        · exact hrun o h
-      · split at h
-        · split at h
-          · cases h; exact absurd hok (by dsimp only; decide)
-          · exact hrun o h
-        · split at h
-          · cases h; exact absurd hok (by dsimp only; decide)
-          · exact hrun o h
-  have := hsorted i j hij (by omega)
-  subst hst
-  simp only [St.g] at this
-  rw [getElem!_pos o.st.a j (by omega), getElem!_pos o.st.a i hi] at this
-  exact this
+  exact sorted_of_musl fx c f g s
+    (qsortMusl_sorted_partial fx c (consistent_of c f hcmp hanti htrans) s g.nmemb g.size hn hsz h63 h3 hb) hn o h hok i j hi hij
 
 /-- non-vacuity: the three-way comparison of natural numbers is such a comparator -/
 example : (∀ x y : Nat, 0 ≤ (if x < y then (-1 : Int) else if x > y then 1 else 0) ↔
@@ -320,6 +371,30 @@ theorem qsortChk_nospc (c : Cmp α) (g : Args) (s : St α) (fx : Fixes) (hfx : f
     exact (Nat.div_lt_iff_lt_mul hpos).mpr hl
   simp only [h1, if_false, hb, hfx, if_true]
   simp [hs, hd]
+
+/-- (3, FULL for the branch with a known object size) all three repairs, object size `b` known and at most `2^63` bytes (every
+    object is: `PTRDIFF_MAX`), array of exactly `nmemb` elements: EVERY call — any `nmemb`, comparator, NULL arguments or not,
+    `nmemb*size` fitting the object or not — returns (a rejection or the sorted run) and keeps the element count.  The
+    product hypothesis of `qsort_safe` is implied by the function's own (repaired) check. -/
+theorem qsort_safe_bos_known (fx : Fixes) (hfx : fx.ctz64 = true) (hgap : fx.pntzGap = true) (hovf : fx.ovf = true) (c : Cmp α)
+    (g : Args) (s : St α) (b : Nat) (hb : g.bos = some b) (hb63 : b ≤ 2 ^ 63) (hn : g.nmemb = s.a.size)
+    (h3 : 3 * g.size < 2 ^ 64) : ∃ o, qsortChk fx c g s = .ok o ∧ o.st.a.size = s.a.size := by
+  by_cases hnull : g.nmemb ≠ 0 ∧ (g.baseNull = true ∨ g.cmpNull = true)
+  · exact ⟨_, qsortChk_null fx c g s hnull.1 hnull.2, rfl⟩
+  · by_cases hprod : g.nmemb * g.size > b
+    · refine ⟨_, qsortChk_nospc c g s fx hovf ?_ b hb hprod, rfl⟩
+      by_cases h0 : g.nmemb = 0
+      · exact Or.inl h0
+      · refine Or.inr ⟨?_, ?_⟩
+        · cases hbn : g.baseNull with
+          | false => rfl
+          | true => exact absurd ⟨h0, Or.inl hbn⟩ hnull
+        · cases hcn : g.cmpNull with
+          | false => rfl
+          | true => exact absurd ⟨h0, Or.inr hcn⟩ hnull
+    · exact qsort_safe fx hfx hgap c g s hn (by omega) h3
+
+example : (⟨false, false, false, 6, 4, some 24⟩ : Args).bos = some 24 ∧ 24 ≤ 2 ^ 63 ∧ allFixed.ovf = true := by decide
 
 /- FULL statement, false of the tree as it stands:
    theorem qsortChk_nospc_full (fx) … (hl : g.nmemb * g.size > b) : Rejected (qsortChk fx c g s) s ESNOSPC -/
